@@ -208,6 +208,26 @@ def rule_immediate(ctx):
                 r.instance("self-deferral without reason", False)
                 r.violate(DGN, "defer", "a node defers its own destruction although neither the depth cap was reached nor the "
                           "stamp test failed", h[2].loc())
+    # (2b) the stamp given to a child is exactly max(parent, link, child): replacing one of them by the current epoch (or
+    # anything else) is safe but makes every child "too recent", i.e. one grace period per node
+    from .registry import run_rules
+    run_rules(ctx, ["CW-CASCADE-MERGE"])
+    mp = getattr(ctx, "_merge_precision", [])
+    seenk = set()
+    for (kinds, imprecise, loc) in mp:
+        key = tuple(kinds)
+        if key in seenk:
+            continue
+        seenk.add(key)
+        ok = not imprecise
+        r.instance("merged child stamp uses only the three recorded stamps: max(%s)" % ", ".join(kinds), ok)
+        if not ok:
+            r.violate(DGN, "merge-precision:" + ",".join(sorted(set(imprecise))),
+                      "the stamp merged for a child contains `%s` instead of a recorded stamp: the child then looks freshly "
+                      "touched, fails the age test and is deferred - reclaiming a chain costs a grace period per node"
+                      % ", ".join(sorted(set(imprecise))), loc)
+    if not mp:
+        raise AnalysisError("REC-IMMEDIATE: no cascade merge found")
     # (3) periodic repin
     ok = any(c.target == "ebr_impl::internal::Local::repin_without_collect" for (_, _, c) in b.calls())
     r.instance("periodic repin_without_collect present", ok)
